@@ -192,6 +192,8 @@ inductive ModelKind where
   | sample (n : Nat) | statecount (t : Int) | wherecount (m r : Nat) | evalcount
   | alert (pr : CountPred) | iql (m : Method)
   | wherenested (m r : Nat) | evalnested | alertnested (k : Nat)
+  | stateduration (t : Int) | changedetect | derivative (nn : Bool) | windowc (p e : Nat) (fill : Bool)
+  | alertthr (a : Int) (sco : Bool)
 
 def modelKind? (kind : String) (p1 p2 : Nat) : Option ModelKind :=
   match kind with
@@ -206,9 +208,22 @@ def modelKind? (kind : String) (p1 p2 : Nat) : Option ModelKind :=
   | "wherenested" => some (.wherenested p1 p2)
   | "evalnested" => some .evalnested
   | "alertnested" => some (.alertnested p1)
+  | "stateduration" => some (.stateduration p1)
+  | "changedetect" => some .changedetect
+  | "derivative" => some (.derivative false)
+  | "derivativenn" => some (.derivative true)
+  | "windowc" => some (.windowc p1 p2 false)
+  | "windowcfill" => some (.windowc p1 p2 true)
+  | "alertthr" => some (.alertthr p1 false)
+  | "alertthrsco" => some (.alertthr p1 true)
   | _ => none
 
 def renderOuts (l : List (GroupID × Out)) : List String := l.map (fun go => s!"{go.2.key}|{go.2.time}|{go.2.proj}")
+
+/-- thresholds of `alertthr`: info > a, warn > a + 2, crit > a + 4 -/
+def thrOf (a : Int) (l : Nat) : Option Int :=
+  match l with
+  | 1 => some a | 2 => some (a + 2) | 3 => some (a + 4) | _ => none
 
 /-- the model of the node AS THE CODE IS TODAY -/
 def runModel (k : ModelKind) (items : List (Item Pt)) : List String :=
@@ -222,11 +237,16 @@ def runModel (k : ModelKind) (items : List (Item Pt)) : List String :=
   | .wherenested m r => renderOuts (runNode (whereNestedNode m r) 0 items)
   | .evalnested => renderOuts (runNode evalNestedNode 0 items)
   | .alertnested k => renderOuts (runNode (alertNodeShared (.gt k)) 0 items)
+  | .stateduration t => renderOuts (runNode (stateDurationNode t) () items)
+  | .changedetect => renderOuts (runNode changeDetectNode () items)
+  | .derivative nn => renderOuts (runNode (derivativeNode nn) () items)
+  | .windowc p e fill => renderOuts (runNode (windowCountNode p e fill) () items)
+  | .alertthr a sco => renderOuts (runNode (alertThrNode (thrOf a) sco) () items)
 
 /-- float sums / float comparisons are outside the concrete models -/
 def modelApplies (k : ModelKind) (pts : List Pt) : Bool :=
   match k with
-  | .iql .sum | .statecount _ => pts.all (fun p => match p.v with | .flt _ => false | _ => true)
+  | .iql .sum => pts.all (fun p => match p.v with | .flt _ => false | _ => true)
   | _ => true
 
 /-- branches of `alertDetermine` taken by the points of one group (by isolation = what the group does alone) -/
